@@ -81,6 +81,7 @@ fn main() {
         "renewstory" => seqdrv::renewstory(rest),
         "ackstory" => seqdrv::ackstory(rest),
         "pinstory" => seqdrv::pinstory(rest),
+        "scanstory" => seqdrv::scanstory(rest),
         "damage" => damagedrv::main(rest),
         "clocksat" => seqdrv::clocksat(rest),
         "faultstory" => seqdrv::faultstory(rest),
